@@ -69,6 +69,36 @@ Theorem C14_order_children_first : forall ds (rank : Z -> nat),
 Proof. intros ds rank Hr. exact (order_children_first ds rank Hr). Qed.
 Print Assumptions C14_order_children_first.
 
+(* 6'. The acyclicity test of the case oracle (C14/Check.v evaluates [acyclicb] on every harness
+       graph before demanding children-first of the implementation's output) IS such a rank:
+       the oracle and theorem 6 talk about the same graphs.  [nodes] lists the ids with a
+       history.  A graph accepted by [acyclicb] has no relation that reaches itself. *)
+Theorem C14_acyclicb_rank : forall ds nodes,
+  acyclicb ds nodes = true ->
+  (forall id, has_history ds id = true -> In id nodes) ->
+  forall x m, has_history ds x = true -> In m (members_of ds x) -> has_history ds m = true ->
+    (rank_of ds nodes m < rank_of ds nodes x)%nat.
+Proof. exact acyclicb_rank. Qed.
+Print Assumptions C14_acyclicb_rank.
+
+Theorem C14_order_children_first_oracle : forall ds nodes,
+  acyclicb ds nodes = true ->
+  (forall id, has_history ds id = true -> In id nodes) ->
+  forall fuel ids s out, order ds fuel ids = (s, out) ->
+  forall r y, reach ds r y -> has_history ds y = true ->
+  forall l1 l2, out = l1 ++ r :: l2 -> In y l1.
+Proof. exact order_children_first_acyclicb. Qed.
+Print Assumptions C14_order_children_first_oracle.
+
+Theorem C14_acyclicb_no_cycle : forall ds nodes,
+  acyclicb ds nodes = true ->
+  (forall id, has_history ds id = true -> In id nodes) ->
+  forall x, has_history ds x = true -> ~ reach ds x x.
+Proof.
+  intros ds nodes H Hall x Hx Hr. pose proof (acyclicb_no_cycle ds nodes H Hall x x Hr Hx). lia.
+Qed.
+Print Assumptions C14_acyclicb_no_cycle.
+
 (* 7. Close or context cancellation at any point (transition system of Model.v: producer
       between sends / blocked in the select / returned; cancellation may happen in any state):
       afterwards at most two more steps are possible, nothing more is delivered (Next returns
@@ -146,3 +176,6 @@ Example ex_lts_close :
   steps 2 {| prod := PRun [5; 6]; cancelled := true; received := [4] |}
           {| prod := PDone; cancelled := true; received := [4] |}.
 Proof. eapply steps_S; [apply st_walk_send|]. eapply steps_S; [apply st_send_cancelled|]. apply steps_O. Qed.
+
+Example ex_dag_acyclicb : acyclicb ex_dag [1; 2; 3; 4] = true /\ acyclicb ex_cyc [1; 2; 3; 4] = false.
+Proof. vm_compute. split; reflexivity. Qed.
